@@ -255,6 +255,47 @@ func c17(c *ctx) {
 		}
 		return hsResults(&hs)
 	})
+	// responses that spell the chosen subprotocol / extension differently from the offer (another
+	// letter case, blanks around it, the second offer, a quoted parameter): whatever the dialer
+	// makes of them - an error or a result - stays what it was
+	for _, form := range []string{"upper", "title", "blanks", "second", "extupper", "quoted", "nopad"} {
+		form := form
+		trace("dialer/"+form, func(r int) []result {
+			tag := string(rune('a' + r%26))
+			o := httphead.Option{Name: []byte("ext-" + tag)}
+			o.Parameters.Set([]byte("offered"), []byte("yes"))
+			d := ws.Dialer{Protocols: []string{"proto-" + tag + tag, "other"}, Extensions: []httphead.Option{o}}
+			proto, ext, pad := "proto-"+tag+tag, "ext-"+tag+"; srv-"+tag+"=val-"+tag+tag, "\r\nX-Pad: "+strings.Repeat(tag, 90)
+			switch form {
+			case "upper":
+				proto = strings.ToUpper(proto)
+			case "title":
+				proto = "P" + proto[1:]
+			case "blanks":
+				proto = "  " + proto + " \t"
+			case "second":
+				proto = "other"
+			case "extupper":
+				ext = strings.ToUpper(ext)
+			case "quoted":
+				ext = "ext-" + tag + "; srv-" + tag + "=\"val-" + tag + tag + "\""
+			case "nopad":
+				proto, pad = "Proto-"+tag+tag, ""
+			}
+			pc := &peerConn{}
+			pc.build = func(k string) []byte {
+				return []byte("HTTP/1.1 101 Switching Protocols\r\nUpgrade: websocket\r\nConnection: Upgrade\r\nSec-WebSocket-Accept: " + acceptFor(k) +
+					"\r\nSec-WebSocket-Extensions: " + ext + "\r\nSec-WebSocket-Protocol: " + proto + pad + "\r\n\r\n")
+			}
+			uu, _ := url.Parse("ws://h/x")
+			_, hs, err := d.Upgrade(pc, uu)
+			if err != nil {
+				cls := vh.ErrClass(err)
+				return []result{{"err", func() string { return "error:" + cls }}}
+			}
+			return hsResults(&hs)
+		})
+	}
 	for _, sz := range []int{2, 30, 123} {
 		sz := sz
 		trace(fmt.Sprintf("close/%d", sz), func(r int) []result {
